@@ -17,6 +17,7 @@ from ..core import Ctx, Rule
 from ..dataflow import derived_names, guards_of, parent_map
 from ..facts import ShapeError, call_name, calls_in, dotted, kwarg, norm, walk_no_nested
 from .hoist_rules import Hoister, hoist_mask_rule
+from .pairing_rules import analysis_pairing
 
 FOR_UNROLL = 'fpy2/transform/for_unroll.py'
 SPLIT = 'fpy2/transform/split_loop.py'
@@ -304,6 +305,91 @@ def f3_fresh_names(ctx: Ctx):
 
 
 # ----------------------------------------------------------------------
+# F4 the generated loop control reads only temporaries of its own
+
+def _named_id_ann(a: ast.AST | None) -> bool:
+    return a is not None and 'NamedId' in {n.id for n in ast.walk(a) if isinstance(n, ast.Name)} and \
+        not any(isinstance(n, ast.Subscript) for n in ast.walk(a))
+
+
+def f4_control_names(ctx: Ctx):
+    """The body of the loop being rewritten runs between the reads the generated control makes (`range(0, n, f)`, the
+    chunk bound `i + f`, `n - fmod(n, f)`): a control name the body can assign changes the iteration space under way.
+    So every name the builders put into the generated control is one the generator minted for this site, and a caller
+    expression that feeds the control (the runtime split factor) is evaluated once, into such a name, ahead of the loop."""
+    fresh_call = lambda x: isinstance(x, ast.Call) and (call_name(x) or '') in ('self.gensym.fresh', 'self.gensym.refresh')  # noqa: E731
+    n_args = 0
+    for rel, cls in ((FOR_UNROLL, '_ForUnroll'), (SPLIT, '_SplitLoop')):
+        methods = {f.name: f for f in ctx.repo.cls(rel, cls).body if isinstance(f, ast.FunctionDef)}
+        for name, fn in methods.items():
+            q = f'{cls}.{name}'
+            own_id_params = {a.arg for a in fn.args.args if _named_id_ann(a.annotation)}
+
+            parents = parent_map(fn)
+
+            def arms(node: ast.AST) -> dict[int, str]:
+                return {id(t): arm for t, arm in guards_of(fn, node, parents) if arm in ('then', 'else')}
+
+            def is_fresh(e: ast.AST) -> bool:
+                if not isinstance(e, ast.Name):
+                    return False
+                if e.id in own_id_params:
+                    return True         # checked where this method is called
+                here = arms(e)
+                # a definition in the other arm of an `if` the read sits in does not reach it
+                defs = [s.value for s in walk_no_nested(fn) if isinstance(s, ast.Assign) and any(isinstance(t, ast.Name) and t.id == e.id for t in s.targets)
+                        and not any(here.get(t) not in (None, arm) for t, arm in arms(s).items())]
+                comp = [g.iter for c in ast.walk(fn) if isinstance(c, (ast.ListComp, ast.GeneratorExp)) for g in c.generators
+                        if isinstance(g.target, ast.Name) and g.target.id == e.id]
+                comp += [v for c in ast.walk(fn) if isinstance(c, (ast.ListComp, ast.GeneratorExp)) for g in c.generators
+                         if isinstance(g.target, ast.Tuple) and isinstance(g.iter, ast.Call) and call_name(g.iter) == 'zip'
+                         for t, v in zip(g.target.elts, g.iter.args) if isinstance(t, ast.Name) and t.id == e.id]
+                if defs:
+                    return all(fresh_call(d) or (isinstance(d, ast.ListComp) and fresh_call(d.elt)) for d in defs)
+                if comp:
+                    return all(is_fresh(it) for it in comp)
+                return False
+            for k in calls_in(fn):
+                cn = call_name(k) or ''
+                # (a) arguments bound to a NamedId parameter of a sibling method
+                if cn.startswith('self.') and cn[5:] in methods:
+                    callee = methods[cn[5:]]
+                    params = callee.args.args[1:]
+                    pairs = list(zip(params, k.args)) + [(p, kw.value) for kw in k.keywords for p in params + callee.args.kwonlyargs if p.arg == kw.arg]
+                    for p, a in pairs:
+                        if not _named_id_ann(p.annotation):
+                            continue
+                        n_args += 1
+                        is_int = 'int' in {x.id for x in ast.walk(p.annotation) if isinstance(x, ast.Name)} and isinstance(a, ast.Name) and not is_fresh(a) \
+                            and not any(isinstance(d, ast.Call) and (call_name(d) or '').startswith('self.') and call_name(d) not in ('self._static_factor',)
+                                        for s in walk_no_nested(fn) if isinstance(s, ast.Assign) and any(isinstance(t, ast.Name) and t.id == a.id for t in s.targets) for d in [s.value])
+                        ctx.check(is_fresh(a) or is_int, rel, k, q, f'{cn}(.. {p.arg}={norm(a)} ..): a control name is one the generator minted for this site (or a compile-time integer)',
+                                  f'`{norm(a)}` is not bound from self.gensym.refresh/fresh in {name}: the loop body can assign the variable the generated control reads')
+                # (b) names read by emitted control expressions
+                if cn in ('Var', '_var') and k.args and isinstance(k.args[0], ast.Name):
+                    n_args += 1
+                    ctx.check(is_fresh(k.args[0]), rel, k, q, f'emitted read {norm(k)} is of a generated name', f'`{norm(k.args[0])}` is not a generated name')
+    # (c) the runtime factor is evaluated once, unconditionally, into the control name
+    q = '_SplitLoop._dynamic_prelude'
+    fn = ctx.fn(SPLIT, q)
+    rets = [s for s in walk_no_nested(fn) if isinstance(s, ast.Return)]
+    elts = []
+    if len(rets) == 1 and isinstance(rets[0].value, ast.Call) and rets[0].value.args and isinstance(rets[0].value.args[0], ast.List):
+        elts = [norm(e) for e in rets[0].value.args[0].elts if not isinstance(e, ast.Starred)]
+    good = 'Assign(f, None, factor, None)' in elts and 'Assign(n, None, Len(None, Var(t, None), None), None)' in elts \
+        and any(e.startswith('AssertStmt(Compare([CompareOp.GE], [Var(f, None), Integer(1, None)]') for e in elts)
+    ctx.check(good, SPLIT, rets[0] if rets else fn, q, 'the prelude always binds the factor and the length to their control names and rejects a factor below 1',
+              f'unconditional prelude statements: {elts}')
+    for b in ('_build_strict', '_build_peel'):
+        bf = ctx.fn(SPLIT, f'_SplitLoop.{b}')
+        uses = [n for n in ast.walk(bf) if isinstance(n, ast.Name) and n.id == 'factor' and isinstance(n.ctx, ast.Load)]
+        at = [k for k in calls_in(bf) if call_name(k) == 'self._dynamic_prelude' and len(k.args) >= 4 and k.args[3] in uses]
+        ctx.check(len(uses) == 1 and len(at) == 1, SPLIT, bf, f'_SplitLoop.{b}', 'the factor expression goes to the prelude, once, and nowhere else', f'{len(uses)} uses of `factor`')
+    if n_args < 20:
+        raise ShapeError(f'only {n_args} control-name positions read')
+
+
+# ----------------------------------------------------------------------
 # P1 remainder handling
 
 def p1_remainder(ctx: Ctx):
@@ -477,6 +563,8 @@ RULES = [
     Rule('C08.F2', 'iterable materialised once; reads go through the temporary; comprehension path inlines only access paths', f2_materialise_once, 16, 'F'),
     Rule('C08.G1', 'zip/enumerate snapshots are replaced by live reads only with a mutation fact', g1_snapshot_iterables, 2, 'G'),
     Rule('C08.F3', 'temporaries come from a generator seeded with the program\'s names; per-copy renaming', f3_fresh_names, 25, 'F'),
+    Rule('C08.F4', 'generated loop control reads only names minted for the site; a runtime split factor is evaluated once into one, ahead of the loop', f4_control_names, 20, 'F'),
+    Rule('C08.P2', 'an analysis handed to a loop rewriter along with a function is the analysis of that function', analysis_pairing((FOR_UNROLL, SPLIT, ZIP, ENUM, REDUCE, WHILE, 'fpy2/transform/for_unpack.py', 'fpy2/transform/for_bundling.py', 'fpy2/transform/while_bundling.py', 'fpy2/transform/if_bundling.py'), 8), 8, 'P'),
     Rule('C08.P1', 'remainder handling: PEEL bounds, residual loop, STRICT assert/refusal, chunk bounds', p1_remainder, 18, 'P'),
     Rule('C08.T1', 'reduce fusion keeps identity, operator, and binds the element before combining', t1_reduce_fusion, 8, 'T'),
     Rule('C08.S1', 'ReduceFusion hoists nothing out of conditionally or repeatedly evaluated positions', hoist_mask_rule([REDUCE_HOISTER], 'C08.S1'), 8, 'S,X'),
@@ -487,6 +575,14 @@ RULES = [
 from ..selftest import Mutant  # noqa: E402
 
 MUTANTS = [
+    Mutant('split-factor-variable-read-live', SPLIT, "            f = self.gensym.refresh(self.temp_id)\n            n = self.gensym.refresh(self.temp_id)\n            emitted.append(self._dynamic_prelude(t, f, n, factor, [\n                AssertStmt(",
+           "            f = factor.name if isinstance(factor, Var) else self.gensym.refresh(self.temp_id)\n            n = self.gensym.refresh(self.temp_id)\n            emitted.append(self._dynamic_prelude(t, f, n, factor, [\n                AssertStmt(", 'C08.F4',
+           'seeded change C08c: a body that assigns the factor variable changes the chunking under way'),
+    Mutant('split-factor-bound-conditionally', SPLIT, "        return integer_ctx([\n            # `factor` is an arbitrary caller Expr feeding `range`/`fmod`,\n            # so it is evaluated exactly (unlike the iterable, kept ambient)\n            Assign(f, None, factor, None),",
+           "        return integer_ctx([\n            *([] if isinstance(factor, Var) else [Assign(f, None, factor, None)]),", 'C08.F4'),
+    Mutant('split-length-read-live', SPLIT, "            Assign(n, None, Len(None, Var(t, None), None), None),\n            *extra,", "            *extra,", 'C08.F4'),
+    Mutant('unroll-remainder-reads-user-name', FOR_UNROLL, "            m = self.gensym.fresh('m')", "            m = NamedId('m')", 'C08.F4'),
+    Mutant('zip-elim-analysis-of-another-function', ZIP, "        out = _ZipElimInstance(func, def_use).apply()", "        out = _ZipElimInstance(ForUnpack.apply(func), def_use).apply()", 'C08.P2'),
     Mutant('shadowing-misses-nested-patterns', ITER, "            out: list[NamedId] = []\n            for elt in target.elts:\n                out.extend(_binding_names(elt))\n            return out",
            "            return [elt for elt in target.elts if isinstance(elt, NamedId)]", 'C08.X1', 'seeded change C08b'),
     Mutant('shadowing-never-restored', ITER, "        finally:\n            self._subst.update(shadowed)", "        finally:\n            pass", 'C08.X1'),
